@@ -10,5 +10,6 @@ for S in "${seeds[@]}"; do
   r=$(timeout 1800 python3 check.py $c --tier quick | grep -E "^C[0-9]+ quick" | sed 's/.*obligations/obligations/')
   v=$(ls evidence/replay/$c-*.scn 2>/dev/null | grep -vc "corr\|proof\|build")
   (cd $REPO && git checkout -q -- .)
+  git checkout -q -- evidence 2>/dev/null
   echo "$S $r concrete_replays=$v"
 done
